@@ -12,6 +12,7 @@ import (
 	"net/http/httptest"
 	"net/url"
 	"os"
+	"strings"
 	"sync"
 	"time"
 
@@ -58,8 +59,8 @@ func cmdSigning(args []string) error {
 	srv := httptest.NewServer(http.HandlerFunc(func(w http.ResponseWriter, req *http.Request) {
 		body, _ := io.ReadAll(req.Body)
 		cap.mu.Lock()
-		cap.reqs = append(cap.reqs, map[string]interface{}{"method": req.Method, "escapedPath": req.URL.EscapedPath(), "sig": req.Header.Get("X-Hookaido-Signature"),
-			"ts": req.Header.Get("X-Hookaido-Timestamp"), "body": hex.EncodeToString(body), "sigAlt": req.Header.Get("X-Sig"), "tsAlt": req.Header.Get("X-Ts")})
+		cap.reqs = append(cap.reqs, map[string]interface{}{"method": req.Method, "escapedPath": req.URL.EscapedPath(), "sig": strings.Join(req.Header.Values("X-Hookaido-Signature"), ","),
+			"ts": strings.Join(req.Header.Values("X-Hookaido-Timestamp"), ","), "body": hex.EncodeToString(body), "sigAlt": strings.Join(req.Header.Values("X-Sig"), ","), "tsAlt": strings.Join(req.Header.Values("X-Ts"), ",")})
 		rt := redirectTo
 		redirectTo = ""
 		cap.mu.Unlock()
@@ -145,7 +146,13 @@ func cmdSigning(args []string) error {
 			redirectTo = srv.URL + "/redirected/elsewhere"
 		}
 		cap.mu.Unlock()
-		res := hd.Deliver(context.Background(), dispatcher.Delivery{ID: "e", Target: target, Method: method, URL: target, Header: http.Header{"Content-Type": {"application/json"}}, Body: body, Sign: cfg})
+		hdr := http.Header{"Content-Type": {"application/json"}}
+		if cfg != nil && r.chance(30) {
+			// the stored message already carries headers with the signing header names (a chained gateway, or the sender's own)
+			hdr.Set(strings.TrimSpace(cfg.SignatureHeader), "stale-signature-from-upstream")
+			hdr.Set(strings.TrimSpace(cfg.TimestampHeader), "1")
+		}
+		res := hd.Deliver(context.Background(), dispatcher.Delivery{ID: "e", Target: target, Method: method, URL: target, Header: hdr, Body: body, Sign: cfg})
 		cap.mu.Lock()
 		got := append([]map[string]interface{}{}, cap.reqs...)
 		redirectTo = ""
